@@ -728,6 +728,9 @@ func (comp) Run(h *core.History, scratch string) *core.Result {
 				// which AddTx must recompute from its own host
 				// (a stale fee of 1: a payer who cannot afford the real fee can afford this one)
 				w.Fee, w.TransferredValue, w.FeePayer = big.NewInt(1), big.NewInt(0), []byte("stale-payer")
+				if i%6 == 1 {
+					w.FeePayer = t.feePayer() // ... and here the payer is the right one, only the amounts are stale
+				}
 				if t.gasLimit != 0 {
 					w.PricePerUnit = 77 // (with a gas limit of 0 precomputeFields leaves PricePerUnit alone: a fresh object has 0 there, so has this one)
 				}
